@@ -342,6 +342,19 @@ def run_case(case, seed=0, solver_timeout_ms=60000, cvc5=False, selfcheck_points
         try:
             real_run(case, If)
             res.update(status="inconclusive", detail="trace raised but eager float64 run did not: " + repr(ex)[:300])
+            if case.prop == "C18":
+                # for C18 'the same values under jit as eagerly' is the property itself: an exception that only occurs
+                # under tracing is confirmed by really jitting the harness on concrete floats
+                import jax
+                import jax.numpy as jnp
+                args = {n: jnp.asarray(v, dtype=jnp.float64) for n, v in If.items()}
+                try:
+                    jax.jit(lambda a: case.fn(**a))(args)
+                except Exception as ex3:
+                    res.update(status="violation", detail=f"runs eagerly but raises under jax.jit: {type(ex3).__name__}: {str(ex3)[:200]}",
+                               violated=[f"raises-under-jit:{type(ex3).__name__}"],
+                               replay={"kind": "exception under jit", "inputs": {k: v.tolist() for k, v in If.items()},
+                                       "exception": f"{type(ex3).__name__}: {str(ex3)[:500]}"})
         except Exception as ex2:
             res.update(status="violation", detail=f"real code raises {type(ex2).__name__}: {str(ex2)[:300]}",
                        violated=[f"raises:{type(ex2).__name__}"],
